@@ -220,7 +220,9 @@ def _hi(tier):
     return 6 if tier == "quick" else 8
 
 
-def _dim(tier):
+def _dim(tier, size=None):
+    if size:
+        return st.integers(*size)
     # 1 is a boundary worth generating, but the counts rest on min(m,n) >= 2: bias away from 1
     return st.one_of(st.integers(1, _hi(tier)), st.integers(2, _hi(tier)), st.integers(2, _hi(tier)))
 
@@ -230,8 +232,8 @@ def _dim(tier):
 
 
 @st.composite
-def definition_cases(draw, tier):
-    m, n = draw(_dim(tier)), draw(_dim(tier))
+def definition_cases(draw, tier, size=None):
+    m, n = draw(_dim(tier, size)), draw(_dim(tier, size))
     A, pat = draw(qm(m, n, 60))
     if draw(st.integers(0, 7)) == 0:
         # one "flat" line (many entries of modulus 1) that carries the largest sum next to "spiky" lines (a single entry
@@ -465,8 +467,8 @@ def check_definitions(case):
 
 
 @st.composite
-def spectral_cases(draw, tier):
-    m, n = draw(_dim(tier)), draw(_dim(tier))
+def spectral_cases(draw, tier, size=None):
+    m, n = draw(_dim(tier, size)), draw(_dim(tier, size))
     kind = draw(st.sampled_from(["pattern", "pattern", "spectrum", "spectrum", "lowrank_int", "unitary_multiple",
                                  "dependent_early_column"]))
     r = min(m, n)
@@ -823,6 +825,10 @@ PROPERTY = Property(
     clauses=[
         Clause("definitions", check_definitions, strategy=definition_cases, budget={"quick": 1200, "thorough": 16000}),
         Clause("spectral", check_spectral, strategy=spectral_cases, budget={"quick": 900, "thorough": 12000}),
+        Clause("definitions_moderate_size", check_definitions, strategy=lambda tier: definition_cases(tier, size=(9, 20 if tier == "quick" else 40)),
+               budget={"quick": 30, "thorough": 300}, shrink=False),
+        Clause("spectral_moderate_size", check_spectral, strategy=lambda tier: spectral_cases(tier, size=(9, 20 if tier == "quick" else 40)),
+               budget={"quick": 40, "thorough": 400}, shrink=False),
         Clause("spectral_far_scale", check_far_scale, strategy=far_scale_cases, budget={"quick": 200, "thorough": 2000}),
         Clause("definitions_long_dimension", check_definitions, strategy=long_definition_cases,
                budget={"quick": 32, "thorough": 320}, shrink=False),
